@@ -232,12 +232,13 @@ def op_tc_rt(a):
     def rest(tc, raw, plen, sp):
         buf = bytes(raw) + bytes(a["sfx"])
         dec = PusTc.unpack(bytearray(buf) if a.get("via") == "bytearray" else buf)
+        keep = octs(dec.pack(recalc_crc=False))       # before any recalculating pack(): the CRC field as decoded
         if a.get("via") == "bytearray":
             dec.to_space_packet().pack()          # the view of a decoded object must leave it as it is
         decode_other("tc", PusTc.unpack)
         return {"octets": octs(raw), "plen": plen, "sp": octs(sp), "crcok": bool(check_pus_crc(bytes(raw))),
                 "dec": tc_proj(dec), "dplen": dec.packet_len, "eq": bool(dec == tc) and bool(tc == dec),
-                "repack": octs(dec.pack())}
+                "keep": keep, "repack": octs(dec.pack())}
     return outcome(run)
 
 
@@ -246,7 +247,8 @@ def op_tc_unpack(a):
 
     def run():
         dec = PusTc.unpack(bytes(a["octets"]))
-        return {"v": tc_proj(dec), "plen": dec.packet_len, "repack": octs(dec.pack())}
+        keep = octs(dec.pack(recalc_crc=False))
+        return {"v": tc_proj(dec), "plen": dec.packet_len, "keep": keep, "repack": octs(dec.pack())}
     return outcome(run)
 
 
@@ -290,11 +292,12 @@ def op_tm_rt(a):
         tsl = len(a["p"]["stamp"])
         buf = bytes(raw) + bytes(a["sfx"])
         dec = cls.unpack(bytearray(buf) if via == "bytearray" else buf, tsl)
+        keep = octs(_inner_tm(dec).pack(recalc_crc=False))      # first: the CRC field exactly as decoded
         if via == "bytearray":
             _inner_tm(dec).to_space_packet().pack()
         decode_other("srv17" if via == "srv17" else "tm", lambda b: cls.unpack(b, 7))
         eq = bool(_inner_tm(dec) == _inner_tm(tm)) and bool(_inner_tm(tm) == _inner_tm(dec))
-        return {"octets": octs(raw), "plen": plen, "sp": octs(sp), "crcok": bool(check_pus_crc(bytes(raw))),
+        return {"keep": keep, "octets": octs(raw), "plen": plen, "sp": octs(sp), "crcok": bool(check_pus_crc(bytes(raw))),
                 "dec": tm_proj(_inner_tm(dec)), "dplen": _inner_tm(dec).packet_len, "eq": eq,
                 "repack": octs(dec.pack()),
                 "stampat": octs(raw[PUS_TM_TIMESTAMP_OFFSET:PUS_TM_TIMESTAMP_OFFSET + tsl])}
@@ -308,7 +311,8 @@ def op_tm_unpack(a):
     def run():
         cls = Service17Tm if a.get("via") == "srv17" else PusTm
         dec = cls.unpack(bytes(a["octets"]), a["tslen"])
-        return {"v": tm_proj(_inner_tm(dec)), "plen": _inner_tm(dec).packet_len, "repack": octs(dec.pack())}
+        keep = octs(_inner_tm(dec).pack(recalc_crc=False))
+        return {"v": tm_proj(_inner_tm(dec)), "plen": _inner_tm(dec).packet_len, "keep": keep, "repack": octs(dec.pack())}
     return outcome(run)
 
 
